@@ -54,9 +54,10 @@ func check1(c Case, mixed bool) evid.Outcome {
 		if res.Panic != "" {
 			return evid.Viol("step %d %+v panicked: %s\nhistory: %+v", i, op, res.Panic, h.Ops)
 		}
-		if op.Kind == "new" && !res.Nil {
+		if op.Kind == "new" && !res.Nil && !hist.Frozen(h, results, i) {
 			// New(existing name) is the documented redefinition (the template is reset): results recorded for this
-			// set are no longer the reference for later calls; the fresh-set replay covers it
+			// set are no longer the reference for later calls; the fresh-set replay covers it. (On a set that has
+			// been executed New changes nothing: F-newfrozen.)
 			for k := range first {
 				if strings.HasPrefix(k, fmt.Sprint(op.Set, "|")) {
 					delete(first, k)
@@ -76,9 +77,6 @@ func check1(c Case, mixed bool) evid.Outcome {
 			o.NonTrivial = true
 			if !same(prev, res) {
 				v := evid.Viol("step %d repeats the call of step %d (template %q, same data) but the result differs: %s vs %s\nhistory: %+v", i, firstAt[key], name, show(prev), show(res), h.Ops)
-				if mixed {
-					v.Finding = "K-rederive"
-				}
 				return v
 			}
 		} else {
@@ -92,9 +90,6 @@ func check1(c Case, mixed bool) evid.Outcome {
 		fresh := hist.Fresh(h, hist.Lineage(h, results, i), fop)
 		if !same(fresh, res) {
 			v := evid.Viol("step %d %+v (template %q): result %s differs from the same call on a freshly built set with the same definitions: %s\nhistory: %+v", i, op, name, show(res), show(fresh), h.Ops)
-			if mixed {
-				v.Finding = "K-rederive"
-			}
 			return v
 		}
 	}
@@ -108,7 +103,7 @@ func check1(c Case, mixed bool) evid.Outcome {
 }
 
 func gen(t *rapid.T) Case {
-	return Case{*hist.Gen(t, hist.Options{CSP: true, MaxOps: 12, BadMembers: rapid.IntRange(0, 2).Draw(t, "bad") == 0, RuntimeBad: true, Unbalanced: rapid.IntRange(0, 2).Draw(t, "unbalanced") == 0, ReadOnlyOps: true, ParseAfter: true, Clones: rapid.IntRange(0, 3).Draw(t, "clones") == 0})}
+	return Case{*hist.Gen(t, hist.Options{CSP: true, MaxOps: 12, MixedHelpers: rapid.Bool().Draw(t, "mixedh"), BadMembers: rapid.IntRange(0, 2).Draw(t, "bad") == 0, RuntimeBad: true, Unbalanced: rapid.IntRange(0, 2).Draw(t, "unbalanced") == 0, ReadOnlyOps: true, ParseAfter: true, Clones: rapid.IntRange(0, 3).Draw(t, "clones") == 0})}
 }
 
 // genMixed: the K-rederive zone (a helper needed in text and in attribute contexts).
